@@ -49,14 +49,28 @@ def build_meta(fmt, channel_sizes, amp_sf, support, text=None, template='syntax-
     d.SignalCompressionID = None
     d.Channels = chans
     if support:
-        arrs, descs = [], []
+        import crsdgen
+        from sarpy.io.phase_history.cphd1_elements.SupportArray import AntGainPhaseType, DwellTimeArrayType, AddedSupportArrayType
+        arrs, iaz, agp, dta, add = [], [], [], [], []
         ao = 0
-        for k, (r, c) in enumerate(support):
-            arrs.append(SupportArraySizeType(Identifier=f'iaz{k}', NumRows=r, NumCols=c, BytesPerElement=4, ArrayByteOffset=ao))
-            ao += r * c * 4
-            descs.append(IAZArrayType(Identifier=f'iaz{k}', ElementFormat='IAZ=F4;', X0=0.0, Y0=0.0, XSS=1.0, YSS=1.0))
+        for k, entry in enumerate(support):
+            r, c = entry[0], entry[1]
+            kind = entry[2] if len(entry) > 2 else 'IAZ'
+            efmt, _, bpe, _ = crsdgen.SUPPORT_KINDS_CPHD[kind]
+            ident = f'iaz{k}' if kind == 'IAZ' else f'sa{k}'
+            arrs.append(SupportArraySizeType(Identifier=ident, NumRows=r, NumCols=c, BytesPerElement=bpe, ArrayByteOffset=ao))
+            ao += r * c * bpe
+            if kind == 'IAZ':
+                iaz.append(IAZArrayType(Identifier=ident, ElementFormat=efmt, X0=0.0, Y0=0.0, XSS=1.0, YSS=1.0))
+            elif kind == 'AGP':
+                agp.append(AntGainPhaseType(Identifier=ident, ElementFormat=efmt, X0=-0.5, Y0=-0.5, XSS=0.25, YSS=0.25))
+            elif kind == 'DTA':
+                dta.append(DwellTimeArrayType(Identifier=ident, ElementFormat=efmt, X0=0.0, Y0=0.0, XSS=1.0, YSS=1.0))
+            else:
+                add.append(AddedSupportArrayType(Identifier=ident, ElementFormat=efmt, X0=0.0, Y0=0.0, XSS=1.0, YSS=1.0,
+                                                 XUnits='m', YUnits='m', ZUnits='count'))
         d.SupportArrays = arrs
-        meta.SupportArray = SupportArrayType(IAZArray=descs)
+        meta.SupportArray = SupportArrayType(IAZArray=iaz or None, AntGainPhase=agp or None, DwellTimeArray=dta or None, AddedSupportArray=add or None)
     else:
         d.SupportArrays = None
         meta.SupportArray = None
@@ -98,12 +112,8 @@ def make_raw(meta, rng):
 
 
 def make_support(meta, rng):
-    out = {}
-    if meta.Data.SupportArrays is None:
-        return out
-    for s in meta.Data.SupportArrays:
-        out[s.Identifier] = numpy.array([rng.uniform(-1, 1) for _ in range(s.NumRows * s.NumCols)], dtype='>f4').reshape((s.NumRows, s.NumCols))
-    return out
+    import crsdgen
+    return crsdgen.make_support(meta, rng)
 
 
 def formatted(raw, amp):
